@@ -81,23 +81,24 @@ type Expect struct {
 }
 
 type Cfg struct {
-	Sandbox     bool            `json:"sandbox"`     // engine has a security policy
-	AllowF      []string        `json:"allowf"`      // filters the policy allows
-	AllowFn     []string        `json:"allowfn"`     // functions the policy allows
-	FaultID     string          `json:"faultid"`     // spy id whose nth invocation fails
-	FaultNth    int             `json:"faultnth"`    //
-	Loader      bool            `json:"loader"`      // serve templates through an ArrayLoader
-	Debug       bool            `json:"debug"`       // engine debug mode
-	Writer      string          `json:"writer"`      // "", "buffer", "plain"
-	Missing     []string        `json:"missing"`     // (informational)
-	FaultLoad   string          `json:"faultload"`   // template name whose Load fails with the sentinel
-	FrontLoader bool            `json:"frontloader"` // an empty ArrayLoader is registered before the real one
-	BackLoader  bool            `json:"backloader"`  // an empty ArrayLoader is registered after the real one
-	ChainLoader bool            `json:"chainloader"` // the real loader sits in a ChainLoader between two empty ones
-	SpyNames    []string        `json:"spynames"`    // further names under which the spy function is registered
-	DenyFalse   bool            `json:"denyfalse"`   // policy maps carry explicit false entries for what is not allowed
-	SelfPanic   bool            `json:"selfpanic"`   // binding self-test: the harness panics where the engine would, and must report it
-	Globals     json.RawMessage `json:"globals"`     // name -> value, registered with Engine.AddGlobal (and not passed in the context)
+	Sandbox        bool            `json:"sandbox"`        // engine has a security policy
+	AllowF         []string        `json:"allowf"`         // filters the policy allows
+	AllowFn        []string        `json:"allowfn"`        // functions the policy allows
+	FaultID        string          `json:"faultid"`        // spy id whose nth invocation fails
+	FaultNth       int             `json:"faultnth"`       //
+	Loader         bool            `json:"loader"`         // serve templates through an ArrayLoader
+	Debug          bool            `json:"debug"`          // engine debug mode
+	Writer         string          `json:"writer"`         // "", "buffer", "plain"
+	Missing        []string        `json:"missing"`        // (informational)
+	FaultLoad      string          `json:"faultload"`      // template name whose Load fails with the sentinel
+	FrontLoader    bool            `json:"frontloader"`    // an empty ArrayLoader is registered before the real one
+	BackLoader     bool            `json:"backloader"`     // an empty ArrayLoader is registered after the real one
+	ChainLoader    bool            `json:"chainloader"`    // the real loader sits in a ChainLoader between two empty ones
+	SpyNames       []string        `json:"spynames"`       // further names under which the spy function is registered
+	SpyFilterNames []string        `json:"spyfilternames"` // names under which the argument-less spy filter (id a1) is registered
+	DenyFalse      bool            `json:"denyfalse"`      // policy maps carry explicit false entries for what is not allowed
+	SelfPanic      bool            `json:"selfpanic"`      // binding self-test: the harness panics where the engine would, and must report it
+	Globals        json.RawMessage `json:"globals"`        // name -> value, registered with Engine.AddGlobal (and not passed in the context)
 }
 
 // path-like template names of the specification (TwigSem NT: pm |-> "p/m" ...): the key used in the
@@ -378,6 +379,14 @@ func renderRun(c *Case, r *Run, ctx map[string]interface{}) (o obs) {
 	registerSpies(e, st)
 	for _, name := range c.Cfg.SpyNames {
 		e.AddFunction(name, spyFunction(st))
+	}
+	for _, name := range c.Cfg.SpyFilterNames {
+		e.AddFilter(name, func(v interface{}, args ...interface{}) (interface{}, error) {
+			if err := st.hit("a1"); err != nil {
+				return nil, err
+			}
+			return v, nil
+		})
 	}
 	if len(c.Cfg.Globals) > 0 && c.Cfg.Globals[0] == '{' { // TLC prints an empty function as []
 		var gl map[string]Value
